@@ -72,7 +72,10 @@ LEVEL_NOTE = ("Trusted: Lean kernel + standard axioms; clone_key/tokenize treate
               "trees, Blockwise layers with collection/literal arguments and DataFrames with recording callbacks (sync and threaded). "
               "Fixed in /repo: 52ea555 (Layer.clone ignored task-spec nodes), 1aebbe7 (Alias.substitute key), b418ebb (Blockwise.clone "
               "renamed literal arguments equal to a layer name: clone changed values), d1ed5a6 (assume_layers=False with omit renamed the "
-              "omit collections' layers: uncomputable results); the dict-value divergence of Layer.clone was resolved by C08's ca6daad.")
+              "omit collections' layers: uncomputable results); the dict-value divergence of Layer.clone was resolved by C08's ca6daad."
+              " Section `history`: several clone/bind/wait_on/checkpoint calls in sequence on ONE child object with "
+              "varying omit sets; all oracles and input purity (cached external-key set, layer keys, dependencies of the child, "
+              "the omitted collections and the parents) after every call.")
 TECHNIQUE = ("Lean 4 proof (renaming lemmas relative to a finite universe, worklist-loop invariants for every pop order with a fuel measure, "
              "reachability characterisation of regenerated/verbatim layers, aggregation-tree shape) + differential correspondence at "
              "function and API level + execution logs")
@@ -932,8 +935,126 @@ def case_bind_layers(ctx, inp):
     ctx.branch("layers:%s-%s" % (inp["op"], inp["dag"]["flavour"]))
 
 
+def _graph_snapshot(c):
+    """everything a call must not change about a collection's graph: the (cached) set of external keys, the keys of
+    every layer, the layer dependencies, and the output keys"""
+    from dask.highlevelgraph import HighLevelGraph
+    g = c.__dask_graph__()
+    if isinstance(g, HighLevelGraph):
+        return {"ext": set(g.get_all_external_keys()), "layers": {n: set(l.keys()) for n, l in g.layers.items()},
+                "deps": {n: set(d) for n, d in g.dependencies.items()}, "out": set(_okeys(c))}
+    return {"ext": set(g), "layers": {}, "deps": {}, "out": set(_okeys(c))}
+
+
+def case_history(ctx, inp):
+    """several clone / bind / wait_on / checkpoint calls IN SEQUENCE on the SAME child object, with varying omit sets
+    (omit then no omit and the reverse): after EVERY call the statement's oracles (values, no shared keys outside omit,
+    parents before regenerated tasks) and input purity (the child's, the omitted collections' and the parents' graphs —
+    incl. the cached `get_all_external_keys()` — are not changed by a call)"""
+    from dask.graph_manipulation import bind, checkpoint, clone, wait_on
+    nodes = _build_dag(inp["dag"])
+    child = nodes[inp["out"]]
+    want = _value(child)
+    sched = inp.get("scheduler", "sync")
+    for si, step in enumerate(inp["steps"]):
+        op = step["op"]
+        # (a node that computes the same thing as the child has the child's keys: omitting it is the degenerate
+        #  "child listed in omit" case, a known finding exercised by the `api` and `bind_layers` sections)
+        omit = [nodes[i] for i in step.get("omit", []) if i != inp["out"] and not (_okeys(nodes[i]) & _okeys(child))]
+        parent = nodes[step["parent"] % len(nodes)] if op in ("bind", "checkpoint") and step.get("parent") is not None else None
+        watched = [("child", child)] + [("omit", o) for o in omit] + ([("parent", parent)] if parent is not None else [])
+        before = [(w, _graph_snapshot(c)) for w, c in watched]
+        tag = f"step {si} ({op}, omit={step.get('omit', [])})"
+        try:
+            if op == "clone":
+                r = clone(child, omit=omit or None, seed=step.get("seed"))
+            elif op == "bind":
+                r = bind(child, parent if parent is not None else nodes[0], omit=omit or None, seed=step.get("seed"),
+                         split_every=step.get("split_every"))
+            elif op == "wait_on":
+                r = wait_on(child, split_every=step.get("split_every"))
+            else:
+                r = checkpoint(child, split_every=step.get("split_every"))
+        except Exception as e:
+            ctx.fail(f"{tag}: raised {type(e).__name__}: {str(e)[:100]}")
+            return
+        # input purity
+        for (w, snap), (_, c) in zip(before, watched):
+            now = _graph_snapshot(c)
+            for field in ("ext", "layers", "deps", "out"):
+                if now[field] != snap[field]:
+                    ctx.fail(f"{tag}: the call changed the {w} collection's graph ({field})",
+                             observed=sorted(map(repr, (snap[field] - now[field]) if isinstance(snap[field], set) else
+                                                 set(snap[field]) ^ set(now[field])))[:4])
+                    break           # (the later calls are still made: their oracles show the consequences)
+        log = _Log()
+        if op == "checkpoint":
+            try:
+                with log.cb():
+                    v = r.compute(scheduler=sched, optimize_graph=False)
+            except Exception as e:
+                ctx.fail(f"{tag}: result cannot be computed: {type(e).__name__}: {str(e)[:100]}")
+                return
+            if v is not None:
+                ctx.fail(f"{tag}: checkpoint does not compute to None", observed=repr(v))
+            fin = log.pos("start", r.key)
+            for k in _task_okeys(child):
+                e = log.pos("end", k)
+                if e is None or fin is None or e > fin:
+                    ctx.fail(f"{tag}: checkpoint ran before a chunk of its input was computed", observed=[repr(k), e, fin])
+                    break
+            ctx.branch("history-checkpoint")
+            continue
+        try:
+            with log.cb():
+                r.compute(scheduler=sched, optimize_graph=False)
+            got = _value(r)
+        except Exception as e:
+            ctx.fail(f"{tag}: result cannot be computed: {type(e).__name__}: {str(e)[:100]}")
+            return
+        if got != want:
+            ctx.fail(f"{tag}: the computed value changed", sig=_lazify_sig(op, r, child), observed=got, expected=want)
+        if _okeys(r) & _okeys(child):
+            ctx.fail(f"{tag}: the result shares output keys with the original", observed=sorted(map(repr, _okeys(r) & _okeys(child)))[:4])
+        allowed = set()
+        for o in omit:
+            allowed |= set(o.__dask_graph__())
+        if parent is not None or op == "bind":
+            allowed |= set((parent if parent is not None else nodes[0]).__dask_graph__())
+        shared = (set(r.__dask_graph__()) & set(child.__dask_graph__())) - allowed
+        if shared and op in ("clone", "bind"):
+            ctx.fail(f"{tag}: the result shares graph keys with the original outside omit (not all nodes were regenerated)",
+                     observed=sorted(map(repr, shared))[:4])
+        if op == "bind":
+            par = parent if parent is not None else nodes[0]
+            pend = [log.pos("end", k) for k in _task_okeys(par)]
+            if None in pend:
+                ctx.fail(f"{tag}: a parent chunk was never computed")
+            else:
+                last_parent = max(pend) if pend else -1
+                orig = set(child.__dask_graph__()) | set(par.__dask_graph__()) | allowed
+                for k in r.__dask_graph__():
+                    if k in orig or str(k if not isinstance(k, tuple) else k[0]).startswith("checkpoint"):
+                        continue
+                    st_ = log.pos("start", k)
+                    if st_ is not None and st_ < last_parent:
+                        ctx.fail(f"{tag}: a regenerated task started before all parents were computed", observed=[repr(k), st_, last_parent])
+                        break
+        if op == "wait_on":
+            ends = [log.pos("end", k) for k in _task_okeys(child)] or [-1]
+            starts = [log.pos("start", k) for k in _okeys(r)]
+            if None in ends or None in starts or max(ends) > min(starts):
+                ctx.fail(f"{tag}: a chunk of the result started before all chunks of the input were computed")
+        ctx.branch("history-" + op + ("-omit" if omit else ""))
+    kinds = [("omit" if st.get("omit") else "plain") for st in inp["steps"] if st["op"] in ("clone", "bind")]
+    if "omit" in kinds and "plain" in kinds[kinds.index("omit"):]:
+        ctx.branch("history-omit-then-no-omit")
+    if "plain" in kinds and "omit" in kinds[kinds.index("plain"):]:
+        ctx.branch("history-no-omit-then-omit")
+
+
 CASES = {"layer": case_layer, "api": case_api, "checkpoint_tree": case_checkpoint_tree, "bw_layer": case_bw_layer,
-         "bind_layers": case_bind_layers}
+         "bind_layers": case_bind_layers, "history": case_history}
 
 
 def _gen_coll(rng, kind=None):
@@ -1056,3 +1177,31 @@ def generate(ctx):
                           "split_every": None, "orders": [1, 2]}
     for _ in range(ctx.n(110)):
         yield "bind_layers", _gen_bind_layers(rng)
+    # multi-call histories on one child object
+    yield "history", {"dag": {"kind": "dag", "flavour": "delayed", "n": 3, "chunks": 1,
+                              "nodes": [["leaf", 0], ["call", [0]], ["call", [1]]]},
+                      "out": 2, "steps": [{"op": "bind", "omit": [1], "parent": 0, "seed": 0}, {"op": "bind", "omit": [], "parent": 0, "seed": 1}]}
+    yield "history", {"dag": {"kind": "dag", "flavour": "array", "n": 4, "chunks": 2,
+                              "nodes": [["leaf", 0], ["un", "add", 0], ["un", "mul", 1]]},
+                      "out": 2, "steps": [{"op": "clone", "omit": [1], "seed": 0}, {"op": "clone", "omit": [], "seed": 1}]}
+    for _ in range(ctx.n(40)):
+        dag = _gen_dag(rng, rng.choice(["array", "delayed", "bag", "array"]))
+        k = len(dag["nodes"])
+        out = k - 1
+        steps = []
+        for _s in range(rng.randint(2, 4)):
+            op = rng.choice(["clone", "clone", "bind", "bind", "wait_on", "checkpoint"])
+            st_ = {"op": op, "seed": rng.choice([None, 0, 5]), "split_every": rng.choice([None, 2])}
+            if op in ("clone", "bind"):
+                st_["omit"] = sorted(rng.sample(range(k - 1), rng.randint(1, min(2, k - 1)))) if rng.random() < 0.55 else []
+            if op == "bind":
+                st_["parent"] = rng.randrange(k - 1)
+            steps.append(st_)
+        # make sure both orders (omit then none, none then omit) occur often
+        cb = [st_ for st_ in steps if st_["op"] in ("clone", "bind")]
+        if len(cb) >= 2 and rng.random() < 0.7:
+            cb[0]["omit"] = sorted(rng.sample(range(k - 1), 1))
+            cb[1]["omit"] = []
+            if rng.random() < 0.5:
+                cb[0]["omit"], cb[1]["omit"] = cb[1]["omit"], cb[0]["omit"]
+        yield "history", {"dag": dag, "out": out, "steps": steps, "scheduler": rng.choice(["sync", "sync", "threads"])}
